@@ -6,6 +6,7 @@ Index expressions are tuples of components (plain python data, JSON-able):
     ("slice", a, b, s)                 a, b, s are bounds:  None | int (literal) | ("t", int) (tensor-valued, 0-d)
     ("t0", i)                          tensor-valued index of rank 0 with runtime value i
     ("t1", [i, ...])                   tensor-valued index of rank 1
+    ("tn", shape, [i, ...])            tensor-valued index of any rank: shape and row-major data
 
 The *form* of an expression (what the converter sees) is the expression with the runtime values of
 tensor-valued parts removed; one script function is generated per form and can be run on any shape of X
@@ -58,6 +59,9 @@ def expr_source(idx):
             parts.append(tv(int(c[1])))
         elif k == "t1":
             parts.append(tv([int(x) for x in c[1]]))
+        elif k == "tn":                                   # ("tn", shape, row-major data): tensor index of any rank
+            vals.append(np.array([int(x) for x in c[2]], dtype=np.int64).reshape(tuple(c[1])))
+            parts.append(f"a{len(vals) - 1}")
         else:
             raise ValueError(c)
     return ", ".join(parts), vals
@@ -73,7 +77,7 @@ def form_of(idx):
         elif k == "slice":
             out.append(("slice",) + tuple(("t",) if is_dyn(b) else b for b in c[1:4]))
         else:
-            out.append((k,))
+            out.append(("t",))        # the converter sees a tensor-valued index; neither its rank nor its value
     return tuple(out)
 
 
@@ -248,7 +252,8 @@ class Graph:
                 chain.append(("Squeeze", [int(x) for x in np.asarray(value(n.input[1])).reshape(-1)]))
             elif n.op_type == "Gather":
                 ax = [a.i for a in n.attribute if a.name == "axis"]
-                chain.append(("Gather", ax[0] if ax else 0, np.asarray(value(n.input[1])).tolist()))
+                ixv = np.asarray(value(n.input[1]))
+                chain.append(("Gather", ax[0] if ax else 0, ixv.tolist(), tuple(ixv.shape)))
             cur = n.output[0]
         if cur != g.output[0].name:
             raise ValueError(f"data path ends at {cur}, graph output is {g.output[0].name}")
@@ -326,7 +331,7 @@ def _skeleton_of_log(log):
             if len(ins) != 2 or ins[1] is None:
                 skel.append(("Gather-without-indices",))
                 continue
-            skel.append(("Gather", int(attrs.get("axis", 0)), np.asarray(ins[1]).tolist()))
+            skel.append(("Gather", int(attrs.get("axis", 0)), np.asarray(ins[1]).tolist(), tuple(np.asarray(ins[1]).shape)))
         elif name == "Identity":
             skel.append(("Identity",))
         elif name in ("Add", "Greater"):
@@ -355,6 +360,8 @@ def eager_getitem(X, idx):
             key.append(slice(bound(c[1]), bound(c[2]), bound(c[3])))
         elif c[0] == "t0":
             key.append(T(int(c[1])))
+        elif c[0] == "tn":
+            key.append(ost.Tensor(np.array([int(x) for x in c[2]], dtype=np.int64).reshape(tuple(c[1]))))
         else:
             key.append(T([int(x) for x in c[1]]))
     key = tuple(key) if len(key) != 1 else key[0]
